@@ -3,6 +3,14 @@
 // Contracts for package indexmeta (comment-only; read by /verif/vcgo, build tag verif).
 package indexmeta
 
+// ---- C10 spec functions ----
+// bytesEq(a, b): bytes.Equal(a, b)
+//@ spec func bytesEq(a []byte, b []byte) bool = len(a) == len(b) && (forall i int :: 0 <= i && i < len(a) ==> a[i] == b[i])
+// le64(b, o): the little-endian uint64 stored at b[o..o+8)
+// firstAt(m, key, i): pair i is the first pair of m stored under key
+//@ spec func firstAt(m Meta, key []byte, i int) bool = 0 <= i && i < len(m.KeyVals) && bytesEq(m.KeyVals[i].Key, key) && (forall j int :: 0 <= j && j < i ==> !bytesEq(m.KeyVals[j].Key, key))
+//@ spec func le64(b []byte, o int) uint64 = uint64(b[o]) + uint64(b[o+1])*256 + uint64(b[o+2])*65536 + uint64(b[o+3])*16777216 + uint64(b[o+4])*4294967296 + uint64(b[o+5])*1099511627776 + uint64(b[o+6])*281474976710656 + uint64(b[o+7])*72057594037927936
+
 //@ func (*Meta) UnmarshalWithDecoder
 //@   mode int
 //@   requires decoder != nil
@@ -16,11 +24,13 @@ package indexmeta
 //@   mode bv
 //@   ensures len(result) == 8 && fresh(result)
 //@   ensures forall i int :: 0 <= i && i < 8 ==> result[i] == byte(value >> (8*uint(i)))
+//@   ensures le64(result, 0) == value
 
 //@ func decodeUint64
 //@   mode bv
 //@   requires len(buf) >= 8
 //@   ensures forall i int :: 0 <= i && i < 8 ==> byte(result >> (8*uint(i))) == buf[i]
+//@   ensures result == le64(buf, 0)
 
 //@ func cloneBytes
 //@   mode int
@@ -31,9 +41,18 @@ package indexmeta
 //@   mode int
 //@   ensures result1 ==> exists i int :: 0 <= i && i < len(m.KeyVals) && result0 == m.KeyVals[i].Value
 //@   ensures !result1 ==> len(result0) == 0
+//@   # C10/M1: Get returns the value of the FIRST pair stored under key; false exactly when no pair has that key
+//@   ensures result1 ==> exists i int :: 0 <= i && i < len(m.KeyVals) && bytesEq(m.KeyVals[i].Key, key) && result0 == m.KeyVals[i].Value && (forall j int :: 0 <= j && j < i ==> !bytesEq(m.KeyVals[j].Key, key))
+//@   ensures !result1 ==> forall j int :: 0 <= j && j < len(m.KeyVals) ==> !bytesEq(m.KeyVals[j].Key, key)
+//@   loop 0 invariant forall j int :: 0 <= j && j < rangeidx0 ==> !bytesEq(m.KeyVals[j].Key, key)
 
 //@ func (Meta) GetUint64
 //@   mode int
+//@   # C10/M1: the value is the little-endian uint64 of the FIRST pair stored under key; ok iff that pair exists and is 8 bytes long
+//@   ensures result1 ==> exists i int :: firstAt(m, key, i) && len(m.KeyVals[i].Value) == 8 && (forall t int :: 0 <= t && t < 8 ==> byte(result0 >> (8*uint(t))) == m.KeyVals[i].Value[t])
+//@   ensures result1 ==> forall i int :: firstAt(m, key, i) ==> len(m.KeyVals[i].Value) == 8 && (forall t int :: 0 <= t && t < 8 ==> byte(result0 >> (8*uint(t))) == m.KeyVals[i].Value[t])
+//@   ensures !result1 ==> result0 == 0
+//@   ensures !result1 ==> forall i int :: firstAt(m, key, i) ==> len(m.KeyVals[i].Value) != 8
 
 //@ func (*Meta) Count
 //@   mode int
@@ -44,4 +63,23 @@ package indexmeta
 //@   mode int
 //@   modifies m
 //@   ensures result == nil ==> len(key) <= 255 && len(value) <= 255 && len(m.KeyVals) == old(len(m.KeyVals)) + 1
+//@   ensures result != nil ==> *m == old(*m)
+//@   # C10/M1: exact failure condition; the new pair is a copy of (key, value) appended after the unchanged old pairs
+//@   ensures (result == nil) == (old(len(m.KeyVals)) < 255 && len(key) <= 255 && len(value) <= 255)
+//@   ensures result == nil ==> bytesEq(m.KeyVals[old(len(m.KeyVals))].Key, key) && bytesEq(m.KeyVals[old(len(m.KeyVals))].Value, value)
+//@   ensures result == nil ==> fresh(m.KeyVals[old(len(m.KeyVals))].Key) && fresh(m.KeyVals[old(len(m.KeyVals))].Value)
+//@   ensures result == nil && old(forall j int :: 0 <= j && j < len(m.KeyVals) ==> !bytesEq(m.KeyVals[j].Key, key)) ==> firstAt(*m, key, old(len(m.KeyVals)))
+//@   ensures result == nil ==> forall i int :: 0 <= i && i < old(len(m.KeyVals)) ==> m.KeyVals[i] == old(m.KeyVals[i])
+
+// ---- C10 (M1): the rest of the key/value store ----
+
+//@ func (*Meta) AddUint64
+//@   mode int
+//@   modifies m
+//@   ensures (result == nil) == (old(len(m.KeyVals)) < 255 && len(key) <= 255)
+//@   ensures result == nil ==> len(m.KeyVals) == old(len(m.KeyVals)) + 1 && bytesEq(m.KeyVals[old(len(m.KeyVals))].Key, key)
+//@   ensures result == nil ==> len(m.KeyVals[old(len(m.KeyVals))].Value) == 8 && le64(m.KeyVals[old(len(m.KeyVals))].Value, 0) == value
+//@   ensures result == nil ==> forall t int :: 0 <= t && t < 8 ==> m.KeyVals[old(len(m.KeyVals))].Value[t] == byte(value >> (8*uint(t)))
+//@   ensures result == nil && old(forall j int :: 0 <= j && j < len(m.KeyVals) ==> !bytesEq(m.KeyVals[j].Key, key)) ==> firstAt(*m, key, old(len(m.KeyVals)))
+//@   ensures result == nil ==> forall i int :: 0 <= i && i < old(len(m.KeyVals)) ==> m.KeyVals[i] == old(m.KeyVals[i])
 //@   ensures result != nil ==> *m == old(*m)
